@@ -88,7 +88,12 @@ class RatFuncCompuMethod(CompuMethod):
             odxraise(f"Cannot decode internal value {internal_value!r}", DecodeError)
             return cast(AtomicOdxType, None)
 
-        return self._int_to_phys_segment.convert(internal_value)
+        try:
+            return self._int_to_phys_segment.convert(internal_value)
+        except (ArithmeticError, ValueError):
+            # e.g., a pole of the rational function
+            odxraise(f"Cannot decode internal value {internal_value!r}", DecodeError)
+            return cast(AtomicOdxType, None)
 
     def convert_physical_to_internal(self, physical_value: AtomicOdxType) -> AtomicOdxType:
         if self._phys_to_int_segment is None or not self._phys_to_int_segment.applies(
@@ -96,7 +101,12 @@ class RatFuncCompuMethod(CompuMethod):
             odxraise(f"Cannot encode physical value {physical_value!r}", EncodeError)
             return cast(AtomicOdxType, None)
 
-        return self._phys_to_int_segment.convert(physical_value)
+        try:
+            return self._phys_to_int_segment.convert(physical_value)
+        except (ArithmeticError, ValueError):
+            # e.g., a pole of the rational function
+            odxraise(f"Cannot encode physical value {physical_value!r}", EncodeError)
+            return cast(AtomicOdxType, None)
 
     def is_valid_physical_value(self, physical_value: AtomicOdxType) -> bool:
         return self._phys_to_int_segment is not None and self._phys_to_int_segment.applies(
